@@ -11,7 +11,7 @@ PROPERTY = "C14"
 LEVEL = "exploration"
 RULE = (
     "Hypothesis lists of 1..4 one-axis index dimensions (1..5 categories, skewed, any common value incl. absent), "
-    "N in 0..20 (two fifths of the cases 40..120 rows with lopsided categories), built by an independent constructor (row-id arrays contiguous, read-only or non-contiguous views). Oracle: by scanning rows, the multiset "
+    "N in 0..20 (two fifths of the cases 40..120 rows with lopsided categories), built by an independent constructor (row-id arrays contiguous, read-only or non-contiguous views; one dimension in six also carries an explicit entry without row ids, which must never be presented). Oracle: by scanning rows, the multiset "
     "{(c, rows(c)) : c in prod(uncommon_d u {-1}) minus {all -1}, rows(c) non-empty}; compared with what walk() "
     "delivers to one callback, to each of two callbacks, and with interactions(); row ids must be strictly "
     "increasing uint32 and no coordinate may equal its dimension's common value. Non-trivial = at least 3 "
@@ -21,7 +21,20 @@ RULE = (
 ASSUMPTIONS = ["dimensions are one-axis indexes (the property's domain); common values are >= 0"]
 
 
-def cases(tier):
+@st.composite
+def cases(draw, tier):
+    case = draw(base_cases(tier))
+    # An explicit entry with NO row ids is not well-formed by C07's standard, but the constructor and validate()
+    # accept it and walk() carries guards for it: such a category is matched by no row and must never be presented.
+    hollow = []
+    for d in range(len(case["dims"])):
+        if draw(st.integers(0, 5)) == 0:
+            hollow.append([d, draw(st.integers(0, 7))])
+    case["hollow"] = hollow
+    return case
+
+
+def base_cases(tier):
     # mostly small cubes; one in four with up to 72 rows so that lopsided row-id sets (a dominant category
     # against a rare one) reach whatever size-dependent strategy the intersection kernel uses
     return st.one_of(Q.cube_specs(max_nd=4, min_nd=1, max_n=20, tails=((),)),
@@ -41,7 +54,15 @@ def check(case, rec):
     commons = [d["common"] for d in case["dims"]]
     idxs = [Q.build_index(a, c, readonly=case.get("readonly", False), reverse=bool(case.get("reverse")))
             for a, c in zip(dense, commons)]
+    nhollow = 0
+    for d, v in case.get("hollow", []):
+        present = set(dense[d].tolist()) | {commons[d]}
+        if v not in present:
+            idxs[d][(v,)] = numpy.empty(0, dtype=numpy.uint32)
+            nhollow += 1
     shape_arg, _ = Q.cube_shape(case, dense)
+    if shape_arg is not None and nhollow:
+        shape_arg = tuple(max(s, 8) for s in shape_arg)
     cols = [a.tolist() for a in dense]
     uncommon = [sorted(set(c) - {k}) for c, k in zip(cols, commons)]
     want = Counter()
@@ -96,6 +117,8 @@ def check(case, rec):
     same(canon(inter, "interactions()"), "interactions()")
     rec.note("nd=%d" % len(dense), "delivered=%s" % ("0" if not want else "1+"),
              "rowids=%s" % {False: "plain", True: "readonly"}.get(case.get("readonly", False), "strided"))
+    if nhollow:
+        rec.note("index with an explicit empty entry")
     if len(dense) >= 3 and mixed:
         rec.nontrivial()
 
